@@ -126,6 +126,39 @@ pub fn run(tier: &str) -> Result<Report, String> {
                     }
                 }
             }
+            // the pattern twice: once inside a domain-restricted scope and once elsewhere, in both orders
+            // (a shortcut result computed in one scope must not leak into the other through the cache)
+            let dom_ctx: Vec<&F> = contexts.iter().filter(|c| c.size() <= (if tier == "quick" { 3 } else { 4 }) && c.any(|x| matches!(x, F::Hy(_, _, Some(_), _)))).collect();
+            let any_ctx: Vec<&F> = contexts.iter().filter(|c| c.size() <= (if tier == "quick" { 2 } else { 3 })).collect();
+            let mut twice: Vec<(F, F)> = vec![];
+            for (_, mk, twin) in patterns() {
+                for c1 in &dom_ctx {
+                    for c2 in &any_ctx {
+                        for op in [Bi::And, Bi::Or] {
+                            if let (Some(p1), Some(p2), Some(t1), Some(t2)) = (fill(c1, 0, &mk), fill(c2, 0, &mk), fill(c1, 0, &twin), fill(c2, 0, &twin)) {
+                                twice.push((F::bin(op, p1.clone(), p2.clone()), F::bin(op, t1.clone(), t2.clone())));
+                                twice.push((F::bin(op, p2, p1), F::bin(op, t2, t1)));
+                            }
+                        }
+                    }
+                }
+            }
+            let bad2: Vec<Violation> = twice
+                .par_iter()
+                .filter_map(|(fp, ft)| {
+                    let (rp, rt) = (ctx.ext_dirty(&fp.show(&ctx.user)), ctx.ext_dirty(&ft.show(&ctx.user)));
+                    let what = match (&rp, &rt) {
+                        (Got::Set(a), Got::Set(b)) if a == b => ctx.diff_dirty(a, &ctx.expected(fp)).map(|d| format!("both evaluations differ from the explicit-state semantics: {d}")),
+                        (Got::Set(a), Got::Set(_)) => Some(format!("shortcut and generic evaluation return different sets{}", match ctx.diff_dirty(a, &ctx.expected(fp)) { Some(d) => format!("; the shortcut version is wrong: {d}"), None => "; the generic version is wrong".into() })),
+                        (a, b) => Some(format!("shortcut: {}, generic: {}", short(a), short(b))),
+                    };
+                    what.map(|w| Violation { case: sem::case_json(&ctx, fp, ck), what: format!("[pattern twice] {} vs twin {} on {} labels={}: {w}", fp.show(&ctx.user), ft.show(&ctx.user), ctx.b.name, ctx.label_desc), size: fp.size() })
+                })
+                .collect();
+            rep.evaluations += twice.len() as u64 * 2;
+            rep.traces_validated += twice.len() as u64 * ctx.b.cols.len() as u64;
+            rep.add_count("pattern_twice_cases", twice.len() as u64);
+            rep.violations.extend(bad2.into_iter().take(30));
             all.sort();
             all.dedup();
             if rep.samples.len() < 4 {
@@ -136,7 +169,7 @@ pub fn run(tier: &str) -> Result<Report, String> {
         }
     }
     rep.set("one_hole_contexts", json!(n_contexts));
-    rep.rule = format!("every one-hole context with <= {ctx_nodes} nodes (all unary operators, & | => EU AU, bind/exists/forall with and without domains, jump) x the two shortcut patterns, their pattern-defeating twins and 11 near-miss families, on the core networks x 2 label families: shortcut vs twin must be the same set (BDD equality), and every formula must agree with the explicit-state oracle and stay inside the unit set; distinct_nontrivial = distinct non-trivial verdict tables");
+    rep.rule = format!("every one-hole context with <= {ctx_nodes} nodes (all unary operators, & | => EU AU, bind/exists/forall with and without domains, jump) x the two shortcut patterns, their pattern-defeating twins and 11 near-miss families, on the core networks x 2 label families: shortcut vs twin must be the same set (BDD equality); the pattern occurring twice (inside a domain-restricted context and in any other context, both orders, joined by & / |) vs the same with twins, and vs the oracle; and every formula must agree with the explicit-state oracle and stay inside the unit set; distinct_nontrivial = distinct non-trivial verdict tables");
     Ok(rep)
 }
 
